@@ -75,10 +75,11 @@ Print Assumptions C01_end_to_end.
 
 
 (* ---------- from the path text, for paths of name, index, wildcard and recursive-descent steps (ChainParse.v, ChainAddr.v) ---------- *)
-From JP Require Import Grammar KeyDefs KeyParse IdxParse SliceParse WildParse RecParse ChainParse ChainAddr.
+From JP Require Import Grammar KeyDefs KeyParse IdxParse SliceParse UnionParse WildParse RecParse ChainParse ChainAddr.
 
 (* For EVERY path made of name steps (in any of the three spellings), index steps [digits], wildcard steps
-   .* / [*] and slice steps [a:b] / [a:b:c] (bounds omitted or signed numbers), each possibly preceded by `..`: the text is accepted, and a retrieval returns exactly the values the
+   .* / [*], slice steps [a:b] / [a:b:c] (bounds omitted or signed numbers) and union steps [s1,s2,...] (signed indexes,
+   slices, wildcards; written order, duplicates kept), each possibly preceded by `..`: the text is accepted, and a retrieval returns exactly the values the
    steps reach — a name or an index at most one value, a wildcard all members in ascending key order / all elements
    in index order, a slice the elements Python's slice selects (py_slice), `..step` the step applied to every container below (and including) the value in pre-order — in
    that order, each with its location in accessor mode; it fails exactly when they reach nothing.  nav_all is
